@@ -391,6 +391,9 @@ func (s *State) newLoc(prefix string) string {
 	s.assume("(not (select " + a + " " + l + "))")
 	s.setHeap(allocHeap, "(Array Int Bool)", "(store "+a+" "+l+" true)")
 	s.freshLocs[l] = true
+	if s.e.eptrDone {
+		s.assume("(not (iselem " + l + "))") // objects are not slice elements
+	}
 	return l
 }
 
